@@ -81,6 +81,17 @@ func Bytes(name string, n int) []byte {
 	return out
 }
 
+// OneOf reports whether b is one of the bytes of set (a single disjunction
+// term under gosym, no branching).
+func OneOf(b byte, set string) bool {
+	for i := 0; i < len(set); i++ {
+		if set[i] == b {
+			return true
+		}
+	}
+	return false
+}
+
 type assumeFailure struct{}
 
 // Assume states a precondition; natively a failed assumption aborts the replay
@@ -141,8 +152,46 @@ func GFMul(a, b uint16) uint16 {
 
 // AbstractBytes is a byte slice of symbolic length without contents (gosym
 // only); natively it is a zero slice of the replayed length.
-func AbstractBytes(name string) []byte { return make([]byte, int(val(name+"_len"))) }
-func AbstractBytesLen(name string, n int) []byte { return make([]byte, n) }
+func AbstractBytes(name string) []byte {
+	n := int(val(name + "_len"))
+	if n < 0 || n > 1<<26 {
+		// not replayable on this machine: treat as outside the replay's reach
+		AssumeFailed = true
+		panic(assumeFailure{})
+	}
+	// spare capacity with a recognisable filler, so that writes past the end are observable
+	b := make([]byte, n, n+64)
+	g := b[n : n+64]
+	for i := range g {
+		g[i] = 0xA5
+	}
+	guards = append(guards, g)
+	return b
+}
+
+var guards [][]byte
+
+// GuardsIntact reports whether the spare capacity behind every AbstractBytes
+// buffer still holds its filler (native only; true under gosym).
+func GuardsIntact() bool {
+	for _, g := range guards {
+		for _, x := range g {
+			if x != 0xA5 {
+				return false
+			}
+		}
+	}
+	return true
+}
+func AbstractBytesLen(name string, n int) []byte {
+	b := make([]byte, n, n+64)
+	g := b[n : n+64]
+	for i := range g {
+		g[i] = 0xA5
+	}
+	guards = append(guards, g)
+	return b
+}
 
 // Register makes a harness runnable by name from the replay test.
 func Register(name string, f func()) { registry[name] = f }
@@ -156,6 +205,7 @@ func RunRegistered(name string) (fails []string, assumeFailed bool, panicked int
 	}
 	Failures = nil
 	AssumeFailed = false
+	guards = nil
 	func() {
 		defer func() {
 			if r := recover(); r != nil {
